@@ -1,5 +1,6 @@
 import StunVerif.Attr.Addr
 import StunVerif.Lemmas.Bytes
+import StunVerif.Lemmas.BE
 namespace StunVerif
 
 theorem xorBytes_cancel (k : Bytes) : ∀ ip : Bytes, ip.length ≤ k.length →
@@ -47,24 +48,6 @@ theorem xorBytes_key_inj : ∀ (k k' ip : Bytes), k.length = ip.length → k'.le
           have := congrArg (· ^^^ b) he.1
           simpa [UInt8.xor_assoc, UInt8.xor_self] using this
         rw [h1, ih k' ip (by simpa using h) (by simpa using h') he.2]
-
-theorem encBE_length (k n : Nat) : (encBE k n).length = k := by
-  induction k generalizing n with
-  | zero => rfl
-  | succ k ih => simp [encBE, ih]
-
-theorem beNat_append_single (bs : Bytes) (b : UInt8) : beNat (bs ++ [b]) = beNat bs * 256 + b.toNat := by
-  simp [beNat, List.foldl_append]
-
-theorem beNat_encBE (k n : Nat) (h : n < 256 ^ k) : beNat (encBE k n) = n := by
-  induction k generalizing n with
-  | zero => simp [encBE, beNat] at *; omega
-  | succ k ih =>
-    rw [encBE, beNat_append_single, ih (n / 256) (by
-      rw [Nat.pow_succ] at h
-      exact Nat.div_lt_of_lt_mul (by rw [Nat.mul_comm]; exact h))]
-    simp
-    omega
 
 theorem encBE_inj (k n m : Nat) (hn : n < 256 ^ k) (hm : m < 256 ^ k) (h : encBE k n = encBE k m) :
     n = m := by
